@@ -5,6 +5,7 @@ import (
 	"encoding/binary"
 	"encoding/hex"
 	"fmt"
+	"math"
 	"math/bits"
 	"reflect"
 	"strings"
@@ -157,6 +158,86 @@ func refNested(s NestedStruct, be bool) []byte {
 	return o
 }
 
+// randFixedType builds a random fixed-size type: scalars, arrays and structs
+// nested up to depth levels (arrays of padded structs included).
+func randFixedType(r *RNG, depth int) reflect.Type {
+	scalars := []reflect.Type{reflect.TypeOf(uint8(0)), reflect.TypeOf(int8(0)), reflect.TypeOf(uint16(0)), reflect.TypeOf(int16(0)),
+		reflect.TypeOf(uint32(0)), reflect.TypeOf(int32(0)), reflect.TypeOf(uint64(0)), reflect.TypeOf(int64(0)), reflect.TypeOf(false),
+		reflect.TypeOf(float32(0)), reflect.TypeOf(float64(0))}
+	if depth <= 0 || r.Chance(2, 5) {
+		return scalars[r.Intn(len(scalars))]
+	}
+	if r.Bool() {
+		return reflect.ArrayOf(r.Range(1, 4), randFixedType(r, depth-1))
+	}
+	nf := r.Range(1, 4)
+	fields := make([]reflect.StructField, nf)
+	for i := range fields {
+		fields[i] = reflect.StructField{Name: fmt.Sprintf("F%d", i), Type: randFixedType(r, depth-1)}
+	}
+	return reflect.StructOf(fields)
+}
+
+// fillRandom sets v (addressable) to random content and appends the reference
+// encoding: field by field, element by element, each scalar in the given
+// byte order.
+func fillRandom(r *RNG, v reflect.Value, be bool, out []byte) []byte {
+	put := func(x uint64, n int) {
+		for j := 0; j < n; j++ {
+			sh := uint(8 * j)
+			if be {
+				sh = uint(8 * (n - 1 - j))
+			}
+			out = append(out, byte(x>>sh))
+		}
+	}
+	switch v.Kind() {
+	case reflect.Struct:
+		for i := 0; i < v.NumField(); i++ {
+			out = fillRandom(r, v.Field(i), be, out)
+		}
+	case reflect.Array:
+		for i := 0; i < v.Len(); i++ {
+			out = fillRandom(r, v.Index(i), be, out)
+		}
+	case reflect.Bool:
+		b := r.Bool()
+		v.SetBool(b)
+		if b {
+			out = append(out, 1)
+		} else {
+			out = append(out, 0)
+		}
+	case reflect.Uint8, reflect.Uint16, reflect.Uint32, reflect.Uint64:
+		n := int(v.Type().Size())
+		x := maskTo(interesting64(r, r.Intn(8)), n)
+		v.SetUint(x)
+		put(x, n)
+	case reflect.Int8, reflect.Int16, reflect.Int32, reflect.Int64:
+		n := int(v.Type().Size())
+		x := interesting64(r, r.Intn(8))
+		// sign-extend from n bytes
+		sx := int64(x<<(64-8*uint(n))) >> (64 - 8*uint(n))
+		v.SetInt(sx)
+		put(uint64(sx), n)
+	case reflect.Float32:
+		bits := uint32(r.U64())
+		if bits&0x7f800000 == 0x7f800000 {
+			bits &^= 0x00800000 // no NaN/Inf: NaN != NaN would fail the round-trip comparison
+		}
+		v.SetFloat(float64(math.Float32frombits(bits)))
+		put(uint64(bits), 4)
+	case reflect.Float64:
+		bits := r.U64()
+		if bits&0x7ff0000000000000 == 0x7ff0000000000000 {
+			bits &^= 0x0010000000000000
+		}
+		v.SetFloat(math.Float64frombits(bits))
+		put(bits, 8)
+	}
+	return out
+}
+
 func interesting64(r *RNG, i int) uint64 {
 	switch i % 8 {
 	case 0:
@@ -188,13 +269,20 @@ func runC15(ctx *Ctx, idx int) {
 		for k, x := range ex {
 			d[k] = x
 		}
-		ctx.Violate("C15/"+clause+"/"+kind, d)
+		fp := kind
+		if strings.HasPrefix(kind, "TypeEncoder(") && (strings.Contains(kind, "struct {") || strings.Contains(kind, "][") || strings.Contains(kind, "NewTypeEncoder")) {
+			fp = "TypeEncoder(random-type)" // the full type is in the detail
+		}
+		ctx.Violate("C15/"+clause+"/"+fp, d)
 	}
 	chk := func(kind string, e encode.Encoder, v interface{}, ref []byte) bool {
 		var clause string
 		var ex map[string]interface{}
 		pv, stack := try(func() { clause, ex = encOracle(e, v, ref, &scratch) })
 		nvals++
+		if nvals&0xffff == 0 {
+			ctx.Beat()
+		}
 		if pv != nil {
 			fail(kind, "panic", v, map[string]interface{}{"panic": fmt.Sprint(pv), "stack": stack})
 			return false
@@ -332,6 +420,42 @@ func runC15(ctx *Ctx, idx int) {
 				}
 			}
 		}
+		// random fixed-size types: nested arrays and structs, arrays of padded
+		// structs, both byte orders, all three constructors
+		for t := 0; t < j.count/8; t++ {
+			typ := randFixedType(r, 3)
+			be := t%2 == 1
+			var order binary.ByteOrder = binary.LittleEndian
+			if be {
+				order = binary.BigEndian
+			}
+			val := reflect.New(typ).Elem()
+			ref := fillRandom(r, val, be, nil)
+			var e *encode.TypeEncoder
+			var err error
+			how := "NewTypeEncoderEndian"
+			switch t % 3 {
+			case 0:
+				e, err = encode.NewTypeEncoderEndian(val.Interface(), order)
+			case 1:
+				how = "NewTypeEncoderEndianByType"
+				e, err = encode.NewTypeEncoderEndianByType(typ, order)
+			case 2:
+				how = "NewTypeEncoderEndian(pointer)"
+				e, err = encode.NewTypeEncoderEndian(val.Addr().Interface(), order)
+			}
+			if err != nil {
+				fail("TypeEncoder(random type)", "constructor-error", nil, map[string]interface{}{"type": typ.String(), "how": how, "error": err.Error()})
+				break
+			}
+			ctx.Count("random_struct_types", 1)
+			if typ.Kind() == reflect.Array && typ.Elem().Kind() == reflect.Struct && int(typ.Size()) != len(ref) {
+				ctx.Count("random_types:array_of_padded_structs", 1)
+			}
+			if !chk(fmt.Sprintf("TypeEncoder(%s,be=%v,%s)", typ.String(), be, how), e, val.Interface(), ref) {
+				break
+			}
+		}
 		// default constructor = little endian
 		e, err := encode.NewTypeEncoder(TStruct{})
 		if err != nil {
@@ -406,7 +530,7 @@ func runC15(ctx *Ctx, idx int) {
 func init() {
 	register(&CheckDef{
 		ID: "C15", Level: "exploration",
-		Rule:     "case = one value of one encoder; oracle: Encode(v) equals an independent reference layout (shift-and-mask little endian; big-endian 16-bit length + bytes for String16; field walk in the configured order for TypeEncoder), Decode(Encode(v)) == v consuming len(Encode(v)) == GetSize(v) == GetEncodedSize(Encode(v)), the same with 9 unrelated bytes appended; I8/I16/U16 exhaustive in both tiers, I32/U32 every 13th value with random phase plus chunk boundaries (quick) or all 2^32 values (thorough), 64-bit and native int: single-bit, all-ones-below, byte-pattern, around 0 and MinInt64, random; String16 length classes 0..65535; Bytes sizes 0..4096; TypeEncoder over a flat and a nested struct and primitives in both byte orders; Dummy on nil; distinct_nontrivial counts work items (value ranges / sample batches), evaluations counts values",
+		Rule:     "case = one value of one encoder; oracle: Encode(v) equals an independent reference layout (shift-and-mask little endian; big-endian 16-bit length + bytes for String16; field walk in the configured order for TypeEncoder), Decode(Encode(v)) == v consuming len(Encode(v)) == GetSize(v) == GetEncodedSize(Encode(v)), the same with 9 unrelated bytes appended; I8/I16/U16 exhaustive in both tiers, I32/U32 every 13th value with random phase plus chunk boundaries (quick) or all 2^32 values (thorough), 64-bit and native int: single-bit, all-ones-below, byte-pattern, around 0 and MinInt64, random; String16 length classes 0..65535; Bytes sizes 0..4096; TypeEncoder over a flat struct, a nested struct, primitives and randomly generated fixed-size types (reflect.StructOf/ArrayOf: nested arrays and structs, arrays of padded structs, floats, bools) in both byte orders through all three constructors; Dummy on nil; distinct_nontrivial counts work items (value ranges / sample batches), evaluations counts values",
 		NumCases: func(tier string) int { return len(c15Jobs(tier)) },
 		Run:      runC15,
 		MinNontrivial: func(tier string) int {
@@ -420,7 +544,7 @@ func init() {
 			if tier == "thorough" && (m.C("exhaustive32:i32") != 1<<32 || m.C("exhaustive32:u32") != 1<<32) {
 				missed = append(missed, "32-bit exhaustive")
 			}
-			for _, g := range []string{"values:i32", "values:u32", "values:i64", "values:u64", "values:int", "values:str16", "values:bytes", "values:struct", "values:prim", "values:dummy", "str16:lenclass_16", "str16:lenclass_0", "bytes:sizeclass_0", "bytes:sizeclass_13"} {
+			for _, g := range []string{"values:i32", "values:u32", "values:i64", "values:u64", "values:int", "values:str16", "values:bytes", "values:struct", "values:prim", "values:dummy", "random_struct_types", "random_types:array_of_padded_structs", "str16:lenclass_16", "str16:lenclass_0", "bytes:sizeclass_0", "bytes:sizeclass_13"} {
 				if m.C(g) == 0 {
 					missed = append(missed, g)
 				}
